@@ -53,7 +53,7 @@ RULE = ('case = (XSD version, content model). Models: the complete family with â
         'open content (interleave / suffix), '
         'seeded members of the same family with all of {1,?,*,+,{2,2},{1,2},{0,0}}, with a wildcard '
         'leaf, and with 3 leaves, '
-        'all pairs of leaves from {a, substitution head and members, 10 wildcard forms} in two-item sequences/choices, edc-subst: {local element named like the head / member / member of the member of a substitution group whose members have other types than the head} x {its type = head\'s / member\'s / member-of-member\'s / another} x {before / after} x {reference to head / member / member of member} x {adjacent / separated / other choice branch} x {required / optional} (432 models per version, complete in both tiers), an Element-Declarations-Consistent family with local '
+        'all pairs of leaves from {a, substitution head and members, 10 wildcard forms} in two-item sequences/choices, block dimension: 6 configurations of schema blockDefault (absent / substitution / #all) x block attribute of the substitution-group heads (absent / "" / substitution), each with every ordered pair of references into the two substitution groups in 4 competing shapes (196 models per configuration and version, tags block:<configuration>), edc-subst: {local element named like the head / member / member of the member of a substitution group whose members have other types than the head} x {its type = head\'s / member\'s / member-of-member\'s / another} x {before / after} x {reference to head / member / member of member} x {adjacent / separated / other choice branch} x {required / optional} (432 models per version, complete in both tiers), an Element-Declarations-Consistent family with local '
         'declarations and substitution-group members, seeded random larger models (depth â‰¤3, xs:all, substitution '
         'heads incl. a transitive member, local declarations, wildcards), the same with nested groups turned into '
         'references to named model groups, and models that reference one named group twice (shared particle objects). '
@@ -230,6 +230,16 @@ class BuildBroken(Exception):
 
 
 def run_batch(ctx: Ctx, drv: Optional[Driver], models: list[tuple], v11: bool, fam: str, strict_p: float) -> None:
+    """families named 'block:<configuration>' are built and judged under that block configuration of the schema head
+    (blockDefault of the schema x block attribute of the substitution-group heads, lib_cm15.BLOCK_CFGS)"""
+    c15.set_block_cfg(fam[6:] if fam.startswith('block:') else None)
+    try:
+        _run_batch(ctx, drv, models, v11, fam, strict_p)
+    finally:
+        c15.set_block_cfg(None)
+
+
+def _run_batch(ctx: Ctx, drv: Optional[Driver], models: list[tuple], v11: bool, fam: str, strict_p: float) -> None:
     try:
         _, obs = observe(models, v11)
     except Exception as e:       # noqa: BLE001 - a lax build must not raise, whatever the models are
@@ -257,8 +267,18 @@ def run_batch(ctx: Ctx, drv: Optional[Driver], models: list[tuple], v11: bool, f
             continue
         intro = ob['intro']
         if c15.ast_of_json(intro.cjson) != c15.skeleton(ast):
-            ctx.mismatch('parsed group differs from the declared model', {'model': c15.show(ast)},
+            ctx.mismatch('parsed group differs from the declared model', {'model': c15.show(ast), 'block': c15.BLOCK_CFG},
                          c15.ast_of_json(intro.cjson), c15.skeleton(ast))
+            # the particles do not match the names the declarations say (e.g. substitution members missing): the
+            # oracle cannot be given the introspected names; judge the DECLARED model with the reference automaton
+            ref0 = c15.glushkov_upa(ast, v11)
+            if ref0 is not None and (ob['kind'] is None) != (ref0 and c15.edc_ref(ast)):
+                case0 = {'v': '1.1' if v11 else '1.0', 'model': c15.show(ast), 'ast': full, 'block': c15.BLOCK_CFG}
+                ctx.case(case0, True, tag=f"{case0['v']}/{fam}")
+                ctx.failure('build outcome differs from determinism of the declared model, and the built particles do not '
+                            'match the names the declarations give them', case0,
+                            {'impl_ok': ob['kind'] is None, 'impl_error': ob['kind'], 'expected_ok': bool(ref0 and c15.edc_ref(ast)),
+                             'built': c15.ast_of_json(intro.cjson), 'declared': c15.skeleton(ast)})
             continue
         if intro.shared:
             ctx.count('shared-particle-objects')
@@ -277,6 +297,8 @@ def run_batch(ctx: Ctx, drv: Optional[Driver], models: list[tuple], v11: bool, f
     answers = drv.query(reqs) if drv is not None and reqs else [None] * len(reqs)
     for (ast, ob, full), ans in zip(pend, answers):
         case = {'v': '1.1' if v11 else '1.0', 'model': c15.show(ast), 'ast': full}
+        if c15.BLOCK_CFG:
+            case['block'] = c15.BLOCK_CFG
         if full[0] == 'oc':
             case['open_content'] = [full[1], full[2]]
         impl_ok = ob['kind'] is None
@@ -382,6 +404,7 @@ def families(ctx: Ctx, with_driver: bool = True):
         for v, e in (m.get('expect') or {}).items():
             WIT_EXPECT[(v, json.dumps(tup(m['ast']), default=list))] = e
     fseq = c15.flat_seqs()
+    blk = c15.block_models()
     dps, _ = c15.dp_shapes(rng, DP_PER_KEY if ctx.quick() else 2 * DP_PER_KEY, 40000 if ctx.quick() else 100000) if with_driver else ([], {})
     fseqr = c15.flat_seqs_rep()
     for v11 in (False, True):
@@ -401,6 +424,8 @@ def families(ctx: Ctx, with_driver: bool = True):
         if not with_driver:
             continue
         yield 'flat-seq-rep', v11, (rng.sample(fseqr, 600) if ctx.quick() else fseqr)
+        for cfg in c15.BLOCK_CFGS:          # block dimension: blockDefault x block of the heads (complete in both tiers)
+            yield 'block:' + cfg, v11, blk
         yield 'exh2-allocc', v11, [c15.small_random(rng, rng.choice([1, 2, 2, 2]), ['a', 'b'], cm.OCC_SMALL)
                                    for _ in range(ctx.pick(1000, 15000))]
         yield 'exh2-any', v11, [c15.small_random(rng, 2, ['a'], cm.OCC_SMALL, any_p=0.5) for _ in range(ctx.pick(800, 15000))]
@@ -552,6 +577,7 @@ def replay(ctx: Ctx, obj: dict) -> int:
         return 0
     detect_fixes()
     print('algorithm variant of the tree under test:', variant(), FX)
+    c15.set_block_cfg(case.get('block'))
     full = tup(case['ast'])
     ast = full[3] if full[0] == 'oc' else full
     v11 = case['v'] == '1.1'
